@@ -52,6 +52,16 @@ def check(tier, seed):
     run.cov["parts"]["render_check"] = {"text_position_pairs": nr, "exhaustive": True}
     for clause, witness, detail in rfails:
         run.violation(clause, detail, witness, True)
+    # --- E2. the parser's token-stream primitives against the abstract stream Engine B assumes ---------
+    nprim, pfails2 = frontend.stream_primitives_check(tier)
+    run.cov["evaluations"] += nprim
+    run.cov["parts"]["stream_primitives"] = {"operations_evaluated": nprim}
+    run.cov["bounded_functions"].append({"functions": ["Parser.peek", "Parser.advance", "Parser.expect", "Parser.expect_keyword", "Parser.skip", "Parser._advance_window"],
+                                         "bound": "all sequences of <= %d operations on 9 token texts (%d operations)" % (5 if tier == "thorough" else 4, nprim)})
+    if nprim == 0:
+        raise MachineryDefect("no stream primitive evaluated")
+    for clause, witness, detail in pfails2:
+        run.violation(clause, detail, witness, True)
     # --- F. the single named case: nesting deeper than the interpreter's recursion budget -------------
     probe = frontend.recursion_probe()
     run.cov["parts"]["recursion_probe"] = probe
